@@ -44,7 +44,10 @@ def key_of(row):
     if a in ("and", "or"):
         return "%s:%s:%s:%s" % (a, row["tag"], row["variant"], outcome(row))
     if a in ("run", "vfy", "ext"):
-        return "%s:%s:%s" % (a, row["tag"], json.dumps({k: row[k] for k in ("w", "x", "r", "cm", "z", "ok", "xok", "sok") if k in row}, sort_keys=True)[:160])
+        # one class per protocol and per combination of the code's verdicts (the replay file holds the first such case)
+        flags = ",".join("%s=%s" % (k, str(row[k]).lower()) for k in ("ok", "ok2", "xok", "sok", "panic") if k in row)
+        arity = "" if a != "vfy" else ":n=%s/%s/%s" % (row.get("nx"), row.get("ncm"), row.get("nz"))
+        return "%s:%s:%s%s" % (a, row["tag"], flags, arity)
     return "%s:%s" % (a, row.get("k"))
 
 
